@@ -112,6 +112,31 @@ def keys_with_data(lib):
     return [g for g in lib if 'thermochem' in lib[g]]
 
 
+def with_aliases(lib, aliases):
+    """A library assembled in memory (the constructor's documented mapping
+    form) holding everything `lib` holds plus, for each [alias, target, how],
+    a further descriptor whose property set is the target's: 'same' -- the
+    very same correlation object (equivalent groups sharing one data set),
+    'sameset' -- the same property-set dict, 'copy' -- an equal-valued deep
+    copy.  The sum is over DESCRIPTORS, whatever objects carry the data."""
+    import copy
+    from pgradd.GroupAdd.Library import GroupLibrary
+    from pgradd.GroupAdd.Group import Descriptor
+    contents = dict((g, lib[g]) for g in lib)
+    for alias, target, how in aliases:
+        ps = lib[target]
+        if how == 'same':
+            new = {'thermochem': ps['thermochem']}
+        elif how == 'sameset':
+            new = ps
+        else:
+            new = {'thermochem': copy.deepcopy(ps['thermochem'])}
+        contents[Descriptor(lib.scheme, alias)] = new
+    return GroupLibrary(lib.scheme, contents,
+                        uq_contents=getattr(lib, 'uq_contents', {}) or {},
+                        path=getattr(lib, 'path', None))
+
+
 # ------------------------------------------------------------------ oracle
 def make_mapping(lib, pairs, form):
     from pgradd.GroupAdd.Group import Group, Descriptor
@@ -164,6 +189,10 @@ _PREV = {}
 def check_case(ctx, case):
     install_contract()
     lib = get_lib(case['lib'], case.get('fresh', False))
+    if case.get('aliases'):
+        lib = with_aliases(lib, case['aliases'])
+        ctx.klass('library assembled in memory whose descriptors share '
+                  'correlation objects')
     pairs = [(k, c) for k, c in case['mapping']]
     mapping = make_mapping(lib, pairs, case.get('keyform', 'str'))
     ctype = case.get('counttype', 'py')
@@ -432,6 +461,28 @@ def gen_cases(ctx):
                 yield {'lib': spec, 'mapping': [[names[-1], 0]],
                        'kind': 'single zero count'}
         i += 1
+        # (a'') equivalent groups: descriptors added in memory that carry the
+        # data of an existing group (the same object, the same property set,
+        # an equal copy), used together with their originals
+        if not getattr(lib, 'uq_contents', None):
+            for j in range(3 if ctx.tier == 'quick' else 12):
+                if ctx.mine(i) and names:
+                    r = ctx.sub_rng('alias', spec, j)
+                    tg = r.sample(names, min(len(names), r.randint(1, 3)))
+                    al = [['alias%d_of_%d' % (q, len(t)), t,
+                           r.choice(['same', 'same', 'sameset', 'copy'])]
+                          for q, t in enumerate(tg)]
+                    if r.random() < 0.4:
+                        al.append(['alias_again', tg[0], 'same'])
+                    ks = list(tg) + [a[0] for a in al]
+                    ks += r.sample(names, min(len(names), r.randint(0, 2)))
+                    ks = list(dict.fromkeys(ks))
+                    r.shuffle(ks)
+                    yield {'lib': spec, 'aliases': al,
+                           'mapping': [[k, r.choice(COUNTS)] for k in ks],
+                           'keyform': r.choice(['str', 'obj']),
+                           'kind': 'equivalent groups sharing data'}
+                i += 1
         # (e) fresh library, before any decomposition
         if ctx.mine(i) and names:
             yield {'lib': spec, 'mapping': [[names[0], 2]], 'fresh': True,
@@ -474,13 +525,62 @@ def gen_cases(ctx):
                                                        'fraction', 'float'])}
 
 
+def check_threads(ctx, spec=None, rounds=3):
+    """An estimate is a function of (library data, mapping): one library
+    object estimating for four threads at once, and one estimator object
+    evaluated by four threads at once, give what they give a lone caller
+    (which the ordinary workload compares with the sum of the constituents).
+    """
+    from vmon.core import threads as TH
+    specs = lib_specs(ctx)
+    if spec is None:
+        spec = specs[(ctx.seed + ctx.shard) % len(specs)]
+    lib = get_lib(spec)
+    names = [str(g) for g in keys_with_data(lib)]
+    uq = getattr(lib, 'uq_contents', None)
+    if uq:
+        basis = [str(d) for d in uq['descriptors']]
+        names = [n for n in names if n in basis] or names
+    r = ctx.sub_rng('c01thr', repr(spec))
+    maps = []
+    for _ in range(8):
+        ks = r.sample(names, min(len(names), r.randint(1, 5)))
+        maps.append(dict((k, r.choice(COUNTS)) for k in ks))
+
+    def values(est):
+        rg = est.get_range()
+        T = 0.5 * (rg[0] + rg[1]) if rg is not None else 298.15
+        return repr([float(getattr(est, n)(T)) for n in PROPS])
+
+    def make_jobs():
+        jobs = []
+        for mi, mp in enumerate(maps):
+            def fresh(mp=mp):
+                return values(lib.Estimate(dict(mp), 'thermochem'))
+            jobs.append((('estimate', mi), fresh))
+            try:
+                shared = lib.Estimate(dict(mp), 'thermochem')
+            except Exception:
+                continue
+            jobs.append((('evaluate shared estimator', mi),
+                         lambda e=shared: values(e)))
+        return jobs
+    res = TH.stress(make_jobs, nthreads=4, rounds=rounds)
+    TH.judge(ctx, res, 'Estimate on a shared library / evaluation of a '
+             'shared estimator', {'what': 'thread stress', 'lib': spec})
+
+
 def run_shard(ctx):
+    if ctx.shard % 4 == 1:
+        check_threads(ctx)
     for case in gen_cases(ctx):
         ctx.klass('workload ' + case.pop('kind', '?'))
         check_case(ctx, case)
 
 
 def replay(ctx, case):
+    if case.get('what') == 'thread stress':
+        return check_threads(ctx, case['lib'], rounds=10)
     check_case(ctx, case)
 
 
